@@ -27,11 +27,12 @@ from harness.armi_env import armi_ready
 
 MODDIR = os.path.join(common.SPEC, "xs")
 MERGE_ACTIONS = ("Merge", "MergeRefused")
-# the exception classes of the three refusals.  ValueError: comparing the per-nuclide PMATRX metadata of two entries of one
+# the exception classes of the three refusals (Property, Metadata, Overlap in the specification).  ValueError: comparing the per-nuclide PMATRX metadata of two entries of one
 # label that both carry activation cross sections (lists of arrays) trips numpy's "truth value is ambiguous" inside
 # properties.numpyHackForEqual -- an accidental exception class, but the overlap IS rejected, which is all the statement asks
-ERRKIND = {"ImmutablePropertyError": "Property", "OSError": "Metadata", "AttributeError": "Overlap", "ValueError": "Overlap"}
+REFUSAL_CLASSES = ("ImmutablePropertyError", "OSError", "AttributeError", "ValueError")
 NPROC = 4            # processes replaying merge edges
+_THIS = __import__("sys").modules[__name__]
 _SELFTEST = False
 _CACHE = {}
 
@@ -105,12 +106,15 @@ class MergeAdapter:
         return {"libs": libs, "nsrc": len(root["src"]), "err": "", "last": None}
 
     def merge(self, w, t, o):
-        """target.merge(other); the refusals the specification models are returned as their kind, anything else
-        (TypeError, KeyError, ...) escapes: an exception out of a legal call is a verdict."""
+        """target.merge(other) -> "" or "refused".  The statement asks for "an error": which of the refusal classes is raised
+        (and hence in which order the code looks for conflicts) is not compared; it is kept in w["cls"] for the reports.
+        Anything else (TypeError, KeyError, ...) escapes: an exception out of a legal call is a verdict."""
+        w["cls"] = ""
         try:
             w["libs"][t].merge(w["libs"][o])
         except self.refusals as ex:
-            return ERRKIND[type(ex).__name__] if type(ex).__name__ in ERRKIND else "Metadata" if isinstance(ex, OSError) else type(ex).__name__
+            w["cls"] = type(ex).__name__
+            return "refused"
         return ""
 
     def apply(self, w, a):
@@ -131,8 +135,9 @@ class MergeAdapter:
 
 def shape_obs(libs, err, act, expected=False):
     """The observation, target first.  On a refusal the statement speaks about the target ("rejected with an error leaving
-    the target unchanged"): the expected observation then carries no entry for `other`, so it is not compared."""
-    out = {"err": err}
+    the target unchanged"): the expected observation then carries no entry for `other`, so it is not compared.
+    The outcome is compared as accepted / refused (the specification's refusal kind names the violation keys only)."""
+    out = {"err": "refused" if err else ""}
     if act is not None and "t" in act:
         out["target"] = libs[act["t"]]
         if not (expected and err):
@@ -165,8 +170,8 @@ def merge_key(div):
     group = FIELD_GROUP.get(field, field)
     if group == "nuclides" and len(parts) > 2:
         group = {"cf": "chi", "owner": "container"}.get(parts[2], "nuclide-data")
-    exp_err = div.get("expected", {}).get("err", "")
-    return "merge:%s%s:%s:%s" % (a["n"], ":" + exp_err if exp_err else "", who, group)
+    kind = div.get("kind", "")
+    return "merge:%s%s:%s:%s" % (a["n"], ":" + kind if kind else "", who, group)
 
 
 def edges_of(res):
@@ -189,7 +194,10 @@ def _replay_chunk(idxs):
         e = g.edges[i]
         pre = g.path[e["_fk"]]
         root = pre[0]["from"] if pre else e["from"]
-        out.append((i, rp.run_behaviour(ad, root, pre + [e], check_from=len(pre))))
+        d = rp.run_behaviour(ad, root, pre + [e], check_from=len(pre))
+        if d:
+            d["kind"] = e["err"]          # the refusal kind the specification gives this edge ("" = accepted)
+        out.append((i, d))
     return out
 
 
@@ -277,8 +285,8 @@ def run_merge(rep, thorough, seed, results):
     if masked:
         rep.note("%d merge edges not replayed because the path leading to them already diverged (reported at its first edge)" % masked)
     for key, d in divs.items():
-        rep.violation(key, "real libraries diverge from LibraryMerge after %s (expected outcome %r; %d edges): %s" % (
-            json.dumps(d["action"]), d["expected"].get("err", ""), d["count"], d["first_difference"]),
+        rep.violation(key, "real libraries diverge from LibraryMerge after %s (specified outcome: %s; %d edges): %s" % (
+            json.dumps(d["action"]), d["kind"] + " conflict, refused" if d["kind"] else "merged", d["count"], d["first_difference"]),
             dict(d, direction="replay", part="merge"))
     ok = [x for x in g.edges if x["err"] == "" and len(g.path[x["_fk"]]) == 2]
     no = [x for x in g.edges if x["err"] != "" and len(g.path[x["_fk"]]) == 1]
@@ -296,10 +304,11 @@ TRACE_NSRC, TRACE_NLAB = 5, 5
 
 
 def random_desc(rng):
-    kind = rng.choice(["n", "n", "g", "p", "p"])
+    # biased towards compatible libraries, so that histories reach libraries merged from three and more sources
+    kind = rng.choice(["n", "g", "p"])
     labs = sorted(rng.sample(range(1, TRACE_NLAB + 1), rng.choice([1, 1, 2, 2, 3])))
-    gs = lambda: rng.choice([1, 1, 1, 1, 2, 3])  # noqa: E731
-    d = {"kind": kind, "labs": labs, "ngs": 0, "ggs": 0, "nd": 0, "gd": 0, "meta": rng.choice([1, 1, 1, 1, 1, 2]), "fw": False}
+    gs = lambda: rng.choice([1, 1, 1, 1, 1, 1, 1, 2, 3])  # noqa: E731
+    d = {"kind": kind, "labs": labs, "ngs": 0, "ggs": 0, "nd": 0, "gd": 0, "meta": rng.choice([1] * 9 + [2]), "fw": False}
     if kind == "n":
         d["ngs"] = gs()
         d["fw"] = rng.random() < 0.3
@@ -342,7 +351,7 @@ def record_trace(ad, tid, src, attempts):
             libs = ad.project_libs(w)
             if err:
                 libs[oi] = pre_other     # `other` is not observed at a refusal (see shape_obs)
-            ev.append({"a": a, "post": {"libs": libs, "err": err}})
+            ev.append({"a": a, "post": {"libs": libs, "err": err, "cls": w["cls"]}})
         except Exception as ex:  # noqa: BLE001  an escaping exception ends the history; TLC rejects the event
             ev.append({"a": a, "post": {"libs": [], "err": "exception %s: %s" % (type(ex).__name__, str(ex)[:160])}})
             break
@@ -366,10 +375,12 @@ def trace_verdicts(bad):
             why = post["err"]
         elif exp:
             act = {"n": "MergeRefused" if exp["err"] else "Merge", "t": a.get("t"), "o": a.get("o")}
-            eo = shape_obs(exp["libs"], exp["err"], act, expected=True)
             go = shape_obs(post.get("libs", []), post.get("err"), act)
-            why = rp.diff(eo, go) or ".?: recorded state is not the specification's"
-            key = merge_key({"action": act, "first_difference": why, "expected": eo})
+            # `other` was not looked at when THIS call was refused, but the recorder's entry for it is its state before the
+            # call: a difference there was made by an earlier refused merge and shows only now
+            why = (rp.diff(shape_obs(exp["libs"], exp["err"], act, expected=True), go)
+                   or rp.diff(shape_obs(exp["libs"], exp["err"], act), go) or ".?: recorded state is not the specification's")
+            key = merge_key({"action": act, "first_difference": why, "kind": exp["err"]})
         else:
             key, why = "trace:merge:unmatched", "no step of the specification matches"
         out.append((key, "recorded merge history %s is not a behaviour of LibraryMerge at event %d (%s): %s" % (
@@ -520,8 +531,8 @@ def run(rep, tier, seed):
         "present iff a neutron library was merged is order-independent",
         "every generated PMATRX nuclide carries neutron heating data (two data-free entries of one label would merge silently)",
         "at a refused merge the target and the bystanders are compared, `other` is not (the statement constrains the target)",
-        "refusals: ImmutablePropertyError (group structures / dose factors), OSError (file metadata), AttributeError or numpy's "
-        "ValueError (same kind of data for one label)",
+        "a refusal is any of ImmutablePropertyError (group structures / dose factors), OSError (file metadata), AttributeError or "
+        "numpy's ValueError (same kind of data for one label); which one is raised when several conflicts coexist is not compared",
         "zero for an empty composition = zero vector (not None, not an exception); a nuclide with non-zero density that the library "
         "lacks is refused with ValueError as documented; data a nuclide does not carry contribute nothing",
         "energy-deposition constants are compared in the library's unit (observed J/cm divided by units.JOULES_PER_eV)",
@@ -532,7 +543,7 @@ def run(rep, tier, seed):
 def replay(payload):
     part, direction = payload.get("part"), payload.get("direction")
     if part == "merge" and direction == "replay":
-        ad = MergeAdapter(nlab=3)
+        ad = MergeAdapter(nlab=len(payload["root"]["lib"][0]["nucs"]))
         steps = [{"act": a, "obs": {}} for a in payload["behaviour"]]
         steps[-1]["obs"] = payload["expected"]
         d = rp.run_behaviour(ad, payload["root"], steps, check_from=len(steps) - 1)
@@ -694,6 +705,48 @@ def selftest():
             return v if v.ndim == 0 else np.full(v.shape, v[0])      # nu taken from the first group only
         return np.asarray(1.0)
 
+    # ---- write-once property / chi rule ----
+    def overwritable(name):
+        priv = "_" + name
+
+        def getter(self):
+            return getattr(self, priv, None)
+
+        def setter(self, value):
+            if value is not None or not hasattr(self, priv):
+                setattr(self, priv, value)            # no comparison with the value already set
+
+        return property(getter, setter)
+
+    def skipped_keys_without_chiflags(self, other, selfContainer, otherContainer, mergedData):
+        keys = set(["chi", "libraryLabel"])
+        if self["chi"] is not None or other["chi"] is not None:
+            mergedData["fileWideChiFlag"] = 0
+            keys.add("fileWideChiFlag")
+            mergedData["chi"] = None                  # the file-wide chi is dropped, but no nuclide is told to write its own
+        return keys
+
+    # ---- the validator itself: corrupted recordings must be rejected ----
+    g = globals()
+    orig_record = g["record_trace"]
+
+    def record_drops_event(ad, tid, src, attempts):
+        tr = orig_record(ad, tid, src, attempts)
+        ok = [i for i, e in enumerate(tr["ev"][:-1]) if not e["post"]["err"]]
+        if ok and tid.endswith("7"):
+            del tr["ev"][ok[0]]
+        return tr
+
+    def record_corrupts_field(ad, tid, src, attempts):
+        tr = orig_record(ad, tid, src, attempts)
+        if tid.endswith("3"):
+            for e in tr["ev"]:
+                for lib in e["post"]["libs"]:
+                    if lib.get("alive") and lib["labels"]:
+                        lib["nucs"][lib["labels"][0] - 1]["cf"] = 1 - lib["nucs"][lib["labels"][0] - 1]["cf"]
+                        return tr
+        return tr
+
     P = patched
     M = xsCollections.MacroscopicCrossSectionCreator
     mutants = [
@@ -706,6 +759,12 @@ def selftest():
         ("merge does not empty the merged-in library", lambda: P(L, "merge", merge_keeps_other)),
         ("_mergeProperties forgets the gamma group structure", lambda: P(L, "_mergeProperties", merge_props_skip_gamma)),
         ("XSNuclide.merge perturbs merged gamma data by 1e-7", lambda: P(xsNuclides.XSNuclide, "merge", nuclide_merge_scales)),
+        ("neutron group structure is overwritable (write-once property broken)",
+         lambda: P(xsLibraries._XSLibrary, "neutronEnergyUpperBounds", overwritable("neutronEnergyUpperBounds"))),
+        ("file-wide chi dropped without switching nuclides to their own chi",
+         lambda: P(nuclearFileMetadata.NuclideXSMetadata, "_getSkippedKeys", skipped_keys_without_chiflags)),
+        ("[validator] a recorded history with one event removed", lambda: P(_THIS, "record_trace", record_drops_event)),
+        ("[validator] a recorded history with one field corrupted", lambda: P(_THIS, "record_trace", record_corrupts_field)),
         ("macro sum double counts one reaction", lambda: P(xsCollections, "computeMacroscopicGroupConstants", cmgc_unsorted_last_twice)),
         ("nuclides missing from the library are silently skipped", lambda: P(xsCollections, "computeMacroscopicGroupConstants", cmgc_missing_silently_skipped)),
         ("absorption omits n2n", lambda: P(xsCollections.XSCollection, "getAbsorptionXS", absorption_skips_n2n)),
@@ -714,6 +773,9 @@ def selftest():
         ("macro scatter matrices ignore the xs-id suffix", lambda: P(M, "_convertScatterMatrices", scatter_ignores_suffix)),
         ("multiplier (nu) taken from the first group", lambda: P(xsCollections, "_getXsMultiplier", xs_multiplier_first_group)),
     ]
+    only = os.environ.get("VERIF_MUTANTS")          # substring filter, for working on one mutant
+    if only:
+        mutants = [m for m in mutants if only in m[0]]
     try:
         return run_mutants(mutants, detect)
     finally:
